@@ -1,7 +1,8 @@
 //! Generated programs: every program of shape [[a],[b]] or [[a,b],[c]] over the operation alphabet,
 //! all universal oracles armed (C01 exclusivity, C02 order, C03 once/quiet, C04 sync, C07/C08 results,
 //! C09 try_sync, C17 census).  Encoded in the cfg as a, b, c (c = -1: two single-op threads); with `t`=3 / `t`=4 the
-//! shape is [[a],[b],[c]] / [[a],[b],[c],[d]] (three or four caller threads with one operation each).
+//! shape is [[a],[b],[c]] / [[a],[b],[c],[d]] (three or four caller threads with one operation each); with `t`=1 it is
+//! [[a,b,c]]: one context issuing three operations in sequence while the environment fires the events.
 use crate::h::*;
 use vsched::rt;
 
@@ -93,18 +94,27 @@ fn prog(cfg: &Cfg) {
         pins.push((bq, bg));
     }
     let t1 = {
-        let (w, o, x, g0, g1) = (w.clone(), o.clone(), x.clone(), gates[0].clone(), gates[1].clone());
+        let (w, o, x, g0, g1, g2) = (w.clone(), o.clone(), x.clone(), gates[0].clone(), gates[1].clone(), gates[2].clone());
         spawn(move || {
             run_op(&w, &o, &x, a, "t1a", &g0);
-            if c >= 0 && nthreads == 2 {
+            if (c >= 0 && nthreads == 2) || nthreads == 1 {
                 run_op(&w, &o, &x, b, "t1b", &g1);
+            }
+            if c >= 0 && nthreads == 1 {
+                // `t`=1: a single context issues a, b, c in sequence (the only shape in which awaited futures are promised to
+                // make progress with no pool thread, whatever else that context has queued on the object)
+                run_op(&w, &o, &x, c, "t1c", &g2);
             }
         })
     };
     let t2 = {
         let (w, o, x, g2) = (w.clone(), o.clone(), x.clone(), gates[2].clone());
         let code = if c >= 0 && nthreads == 2 { c } else { b };
-        spawn(move || run_op(&w, &o, &x, code, "t2a", &g2))
+        spawn(move || {
+            if nthreads >= 2 {
+                run_op(&w, &o, &x, code, "t2a", &g2)
+            }
+        })
     };
     let mut more = vec![];
     if nthreads >= 3 {
